@@ -9,7 +9,7 @@ from unittest.mock import MagicMock
 
 from harness import simnet
 from harness.acc import Accessory, http
-from harness.common import Ctx, Driver, compare_with_model, load_corpus
+from harness.common import Ctx, Driver, compare_with_model, load_corpus, shrink_list
 from harness.rcsim import settle, now_units, UNIT
 
 from aiohomekit.characteristic_cache import CharacteristicCacheMemory
@@ -351,6 +351,7 @@ def run_cases(ctx: Ctx, driver: Driver, cases):
     loop = simnet.VLoop()
     asyncio.set_event_loop(loop)
     impl, lines, cs = [], [], []
+    minimized = {}
     try:
         for i, (variant, limit, events, kind) in enumerate(cases):
             out, problems = loop.run_until_complete(scenario(loop, variant, limit, events, ctx.seed * 7919 + i))
@@ -371,7 +372,21 @@ def run_cases(ctx: Ctx, driver: Driver, cases):
             for sig, text in problems:
                 if sig not in seen:
                     seen.add(sig)
-                    ctx.violation(f"{variant}/{sig}", text, case)
+                    vcase = dict(case)
+                    if sig not in minimized and len(minimized) < 4:
+                        def still(evs, sig=sig):
+                            _, pr = loop.run_until_complete(scenario(loop, variant, limit, evs, vcase["seed"]))
+                            pend2 = [t for t in asyncio.all_tasks(loop) if not t.done()]
+                            for t in pend2:
+                                t.cancel()
+                            if pend2:
+                                loop.run_until_complete(asyncio.gather(*pend2, return_exceptions=True))
+                            return any(s2 == sig for s2, _ in pr)
+                        small = shrink_list(events, still)
+                        minimized[sig] = small
+                        vcase["minimized_events"] = small
+                        text = text + f" [minimal history: {' '.join(small)}]"
+                    ctx.violation(f"{variant}/{sig}", text, vcase)
             for ln in out:
                 for tok in ln.split(" | ")[0].split():
                     if tok.startswith("D"):
